@@ -48,6 +48,7 @@ func run(c *vf.Ctx) {
 	c.Set("phase_send_s", time.Since(t0).Seconds())
 	t0 = time.Now()
 	receiveSmall(c)
+	otherPacketTypes(c)
 	c.Set("phase_receive_small_s", time.Since(t0).Seconds())
 	t0 = time.Now()
 	gracefulClose(c)
@@ -444,6 +445,67 @@ func sendLattice(c *vf.Ctx) {
 		}
 	}
 	c.Sample("send", map[string]any{"lengths": lens})
+}
+
+// otherPacketTypes: a session-service stream also carries packets that are NOT session messages (keep-alive 0x85,
+// and the types a peer must not send mid-session: 0x81..0x84). Whatever the transport does with such a packet - an
+// error, or skipping it - every value Receive returns WITHOUT an error is one of the messages the peer sent, whole
+// and in order: it never hands out a message nobody sent, and never a message twice. Streams [A] [other packet] [B]
+// for message lengths {0,1,5}, every packet type, packet lengths {0, 3} and every segmentation into two reads.
+func otherPacketTypes(c *vf.Ctx) {
+	n := 0
+	for _, typ := range []byte{0x85, 0x81, 0x82, 0x83, 0x84, 0x01, 0xFF} {
+		for _, plen := range []int{0, 3} {
+			for _, la := range []int{0, 1, 5} {
+				for _, lb := range []int{0, 1, 5} {
+					A, B := content(la, 0x61, 0), content(lb, 0x71, 0)
+					other := append([]byte{typ, 0, 0, byte(plen)}, content(plen, 0x11, 0)...)
+					stream := append(append(append([]byte{}, frame(A)...), other...), frame(B)...)
+					for cut := 0; cut <= len(stream); cut++ {
+						conn := &scriptConn{stream: stream, segs: []int{cut, len(stream)}}
+						if cut == 0 || cut == len(stream) {
+							conn.segs = nil
+						}
+						t := newTransport(c, conn)
+						var got [][]byte
+						pan := ""
+						for call := 0; call < 6; call++ {
+							var m []byte
+							var err error
+							if p, msg, where := vf.Try(func() { m, err = t.Receive() }); p {
+								pan = msg + " at " + where
+								break
+							}
+							if err == nil {
+								got = append(got, append([]byte{}, m...))
+							}
+						}
+						n++
+						c.Evals(1)
+						c.Case([]byte("otherpkt"), []byte{typ, byte(plen), byte(la), byte(lb), byte(cut)})
+						// got must be a subsequence-prefix of [A, B]: [], [A], [B], or [A, B]
+						ok := pan == ""
+						want := [][]byte{A, B}
+						wi := 0
+						for _, g := range got {
+							for wi < len(want) && !bytes.Equal(g, want[wi]) {
+								wi++
+							}
+							if wi == len(want) {
+								ok = false
+								break
+							}
+							wi++
+						}
+						c.Check("C11/receive/other-packet-types/every-message-returned-without-error-was-sent-and-is-returned-once", ok, func() string {
+							return fmt.Sprintf("stream [message %x] [packet type %#02x with %d payload bytes] [message %x], read in segments cut at %d: Receive returned without error %x (panic %q); the peer sent only the two messages", A, typ, plen, B, cut, got, pan)
+						})
+					}
+				}
+			}
+		}
+	}
+	c.Set("other_packet_type_streams", n)
 }
 
 // ------------------------------------------------------------------ Receive oracle
